@@ -245,6 +245,71 @@ func subWalkers(out string, seed uint64, tier string, arg string) {
 			rep.violate(Violation{"C02", "util.IsNameAttribute panicked on " + s, "panic:IsNameAttribute", map[string]interface{}{"oid": s}})
 		}
 	}
+	// --- the DecodeRune walk of e_subject_dn_not_printable_characters over subject attribute values
+	if dnReg, err := lint.GlobalRegistry().Filter(lint.FilterOptions{IncludeNames: []string{"e_subject_dn_not_printable_characters"}}); err == nil {
+		doDN := func(vals [][]byte, tag byte) {
+			rdns := [][]atv{}
+			for _, v := range vals {
+				rdns = append(rdns, []atv{{oidO, tag, string(v)}})
+			}
+			rdns = append(rdns, []atv{{oidCN, 0x0C, "dn.example.com"}})
+			der, err := BuildCert(CertSpec{Subject: pkixName("placeholder"), DNS: []string{"dn.example.com"}})
+			if err != nil {
+				return
+			}
+			cd, _ := ParseCertDER(der)
+			sn, _, err := ParseNode(rawName(rdns))
+			if err != nil {
+				return
+			}
+			cd.tbs.Kids[4+cd.off] = sn
+			o := parseObj("cert", "kit-dnwalk", cd.Bytes())
+			if o == nil {
+				rep.count(fmt.Sprintf("wdn:rejected-by-parser:tag%02x", tag))
+				return
+			}
+			rep.count(fmt.Sprintf("wdn:accepted:tag%02x", tag))
+			rs, p := lintObj(o, dnReg)
+			res := "other"
+			if p != "" || rs == nil {
+				res = "panic"
+			} else if r := rs.Results["e_subject_dn_not_printable_characters"]; r != nil {
+				switch {
+				case r.Status == lint.Pass:
+					res = "pass"
+				case r.Status == lint.Error:
+					res = "error"
+				case r.Status == lint.Fatal && strings.Contains(r.Details, panicMarker):
+					res = "panic"
+				default:
+					res = "other:" + r.Status.String()
+				}
+			}
+			var hs []string
+			for _, v := range vals {
+				hs = append(hs, hx(v))
+			}
+			hs = append(hs, hx([]byte("dn.example.com")))
+			emit("wdn\t"+strings.Join(hs, ","), res)
+			if res == "panic" {
+				rep.violate(Violation{"C02", "e_subject_dn_not_printable_characters panicked on subject values " + strings.Join(hs, ","), "recovered:e_subject_dn_not_printable_characters", replayOf(o, nil)})
+			}
+		}
+		enumStrings([]byte{0x41, 0x1F, 0x7F, 0x85, 0xC2, 0xE2, 0x82, 0xF0, 0xFF}, 3, func(b []byte) {
+			if len(b) > 0 {
+				for _, tg := range []byte{0x0C, 0x14, 0x13, 0x16, 0x1C, 0x04} {
+					doDN([][]byte{b}, tg)
+				}
+			}
+		})
+		for i := 0; i < 300; i++ {
+			var vals [][]byte
+			for k := 1 + rng.Intn(3); k > 0; k-- {
+				vals = append(vals, rng.Bytes(1+rng.Intn(8)))
+			}
+			doDN(vals, []byte{0x0C, 0x13, 0x16, 0x14}[rng.Intn(4)])
+		}
+	}
 	// --- IsFQDN's prefix stripping, with a watchdog: these helpers loop on their input
 	fqHangs := 0
 	doFQ := func(b []byte) {
